@@ -609,13 +609,53 @@ from ase import Atoms as _Atoms  # noqa: E402
 from ase.cell import Cell as _Cell  # noqa: E402
 
 
+_CMP_UFUNCS = (np.equal, np.not_equal, np.less, np.less_equal, np.greater, np.greater_equal)
+
+
 class LArr(np.ndarray):
-    """Object array that remembers the logical dtype it stands for (C19 dtype clause)."""
+    """Object array that remembers the logical dtype it stands for (C19 dtype clause).  Comparisons
+    give an object array of symbolic booleans (no per-element fork); any()/all() merge them into ONE
+    symbolic boolean, so `(a != b).any()` costs a single branch instead of 2^n."""
 
     ldtype = None
 
     def __array_finalize__(self, obj):
         self.ldtype = getattr(obj, "ldtype", None)
+
+    def __array_ufunc__(self, ufunc, method, *inputs, **kwargs):
+        ins = tuple(np.asarray(x).view(np.ndarray) if isinstance(x, LArr) else x for x in inputs)
+        if "out" in kwargs:
+            kwargs["out"] = tuple(o.view(np.ndarray) if isinstance(o, LArr) else o for o in kwargs["out"])
+        if ufunc in _CMP_UFUNCS and method == "__call__" and any(getattr(x, "dtype", None) == object for x in ins):
+            r = ufunc(*ins, dtype=object, **kwargs)
+            return r.view(LArr) if isinstance(r, np.ndarray) else r
+        r = getattr(ufunc, method)(*ins, **kwargs)
+        if isinstance(r, np.ndarray) and r.dtype == object and "out" not in kwargs:
+            r = r.view(LArr)
+            r.ldtype = self.ldtype
+        return r
+
+    def _merge(self, how):
+        vals = self.view(np.ndarray).ravel().tolist()
+        syms = [v for v in vals if is_sym(v)]
+        conc = [bool(v) for v in vals if not is_sym(v)]
+        if how == "any":
+            if any(conc):
+                return True
+            return SB(z3.Or(*[sb(v if isinstance(v, SB) else (v != 0)) for v in syms])) if syms else False
+        if not all(conc):
+            return False
+        return SB(z3.And(*[sb(v if isinstance(v, SB) else (v != 0)) for v in syms])) if syms else True
+
+    def any(self, axis=None, out=None, keepdims=False, **kw):
+        if self.dtype == object and axis is None:
+            return self._merge("any")
+        return self.view(np.ndarray).any(axis=axis, out=out, keepdims=keepdims, **kw)
+
+    def all(self, axis=None, out=None, keepdims=False, **kw):
+        if self.dtype == object and axis is None:
+            return self._merge("all")
+        return self.view(np.ndarray).all(axis=axis, out=out, keepdims=keepdims, **kw)
 
 
 def objectify(a, keep_tag=True):
@@ -634,7 +674,7 @@ class SymCell(_Cell):
             array = np.diag(array)
         if array.dtype != object:
             array = array.astype(float).astype(object)
-        self.array = np.array(array, dtype=object)
+        self.array = np.array(array, dtype=object).view(LArr)
 
     @classmethod
     def new(cls, cell=None):
